@@ -76,6 +76,13 @@ Theorem C20_descr_matches_2d : forall (xstart xsize : Q) (xcount : N) (ystart ys
                                  && in_descr_b (get_descr ay (Z.of_nat j)) (snd (fst e))) xs)).
 Proof. exact cells_hold_admitted. Qed.
 
+Theorem C20_values_are_spec_2d : forall (xstart xsize : Q) (xcount : N) (ystart ysize : Q) (ycount : N)
+  (xs : list (Q * Q * Q)), 0 < xsize -> 0 < ysize ->
+  let ax := new_axis xstart xsize xcount in
+  let ay := new_axis ystart ysize ycount in
+  leq2 (binning2 ax ay xs) (spec_values2 ax ay xs).
+Proof. exact values2_are_spec. Qed.
+
 (* binning_additive - binning of a concatenation = entrywise sum of the binnings; every grid *)
 Theorem C20_binning_additive : forall (start size : Q) (count : N) (xs ys : list (Q * Q)),
   let a := new_axis start size count in
@@ -130,6 +137,7 @@ Print Assumptions C20_descr_unique.
 Print Assumptions C20_descr_matches.
 Print Assumptions C20_values_are_spec.
 Print Assumptions C20_descr_matches_2d.
+Print Assumptions C20_values_are_spec_2d.
 Print Assumptions C20_binning_additive.
 Print Assumptions C20_binning_additive_2d.
 Print Assumptions C20_collect_is_whole.
